@@ -154,12 +154,10 @@ MUTANTS = [
 			return""", 1),
 ("C04", "m2-unregister-no-alias-drain", "node/node.go",
  """	for _, a := range p.aliases {
-		n.aliases.Delete(a)
 		n.RouteTerminateAlias(a, reason)
-	}""",
- """	for _, a := range p.aliases {
-		n.aliases.Delete(a)
-	}""", 1),
+	}
+""",
+ """""", 1),
 ("C04", "m2-unregister-no-consumer-cleanup", "node/node.go",
  """	n.RouteTerminatePID(p.pid, reason)
 	// drop links and monitors created by this process
@@ -180,10 +178,10 @@ MUTANTS = [
 	if ok := p.mailbox.Urgent.Push(qm); ok == false {""", 1),
 # ---------------- C05
 ("C05", "m2-unregister-terminate-reason-normal", "node/node.go",
- """	n.processes.Delete(p.pid)
-	n.RouteTerminatePID(p.pid, reason)""",
- """	n.processes.Delete(p.pid)
-	n.RouteTerminatePID(p.pid, gen.TerminateReasonNormal)""", 1),
+ """	n.RouteTerminatePID(p.pid, reason)
+	// drop links and monitors created by this process""",
+ """	n.RouteTerminatePID(p.pid, gen.TerminateReasonNormal)
+	// drop links and monitors created by this process""", 1),
 ("C05", "m2-run-zombee-reason-normal", "node/process.go",
  """			p.node.unregisterProcess(p, gen.TerminateReasonKill)
 			p.behavior.ProcessTerminate(gen.TerminateReasonKill)
@@ -206,23 +204,17 @@ MUTANTS = [
 				}""", 1),
 # ---------------- C06
 ("C06", "m2-unregister-name-not-deleted", "node/node.go",
- """	if p.registered.Load() {
+ """	if registered {
 		n.names.Delete(p.name)
-		pname := gen.ProcessID{Name: p.name, Node: n.name}
-		n.RouteTerminateProcessID(pname, reason)
-	}""",
- """	if p.registered.Load() {
-		pname := gen.ProcessID{Name: p.name, Node: n.name}
-		n.RouteTerminateProcessID(pname, reason)
-	}""", 1),
+	}
+""",
+ """""", 1),
 ("C06", "m2-unregister-aliases-not-deleted", "node/node.go",
  """	for _, a := range p.aliases {
 		n.aliases.Delete(a)
-		n.RouteTerminateAlias(a, reason)
-	}""",
- """	for _, a := range p.aliases {
-		n.RouteTerminateAlias(a, reason)
-	}""", 1),
+	}
+""",
+ """""", 1),
 ("C06", "m2-meta-alias-not-deleted", "node/meta.go",
  """			if old != int32(gen.MetaStateTerminated) {
 				m.p.node.aliases.Delete(m.id)
@@ -237,8 +229,9 @@ MUTANTS = [
 			return""", 1),
 ("C06", "m2-unregister-process-not-deleted", "node/node.go",
  """	n.processes.Delete(p.pid)
-	n.RouteTerminatePID(p.pid, reason)""",
- """	n.RouteTerminatePID(p.pid, reason)""", 1),
+
+	// release the name, aliases and events""",
+ """	// release the name, aliases and events""", 1),
 # ---------------- C07
 ("C07", "m2-meta-call-reply-wrong-ref", "node/meta.go",
  """				result, reason = m.behavior.HandleCall(message.From, message.Ref, message.Message)
